@@ -36,7 +36,7 @@ def build(spec):
 def main(tier, seed):
     t0 = time.time()
     specs = enumerate_specs(tier)
-    results = runner.run_pool(__name__, specs, tier, seed, optkw={"ties": True})
+    results = runner.run_pool(__name__, specs, tier, seed, optkw={"ties": True}, chain=4)
     return runner.finish(
         PROP, tier, seed, results, t0,
         bounds={"operand_rank": "0-2 (quick) / 0-3, 4 for permutations and matmul (thorough)", "extents": "1-4",
